@@ -287,7 +287,7 @@ func runRegex(w *out.W, tier string) {
 	w.Rule = "a case is non-trivial when the real inspection recovered at least one generated expression, AUTOINCREMENT, predicate, named foreign key or CHECK, or stopped with one of the modelled errors; distinct by observation shape x feature key"
 	n := 500
 	if tier == "thorough" {
-		n = 8000
+		n = 5000
 	}
 	var cases []*regexCase
 	for i, st := range miniTexts() {
